@@ -120,6 +120,8 @@ def exists(lo, hi, body, name='e'):
 
 def forall_int(body, name='a', pattern=None):
     """forall i (all integers): body(i) -- used by the encoder for array definitions"""
+    if not SYMBOLIC[0]:
+        return all(body(i) for i in range(-2, 40))      # concrete evaluation: a window larger than any enumerated state
     if BOUND[0] is not None:
         return z3.And(*[_b(body(z3.IntVal(i))) for i in _rng()])
     i = z3.Int('%s!%d' % (name, next(_fresh)))
@@ -171,6 +173,7 @@ class CSeq2:
 class CSet:
     def __init__(self, xs): self.xs = set(xs)
     def has(self, i): return i in self.xs
+    def __eq__(self, o): return isinstance(o, CSet) and self.xs == o.xs
     def __repr__(self): return 'CSet(%r)' % (sorted(self.xs),)
 
 
@@ -178,6 +181,7 @@ class CDict:
     def __init__(self, d): self.d = dict(d)
     def has(self, k): return k in self.d
     def get(self, k): return self.d[k]
+    def __eq__(self, o): return isinstance(o, CDict) and self.d == o.d
 
 
 class NS:
